@@ -30,6 +30,7 @@ type SeqProfile struct {
 	PSnap     float64 // a step is snapshot -> restore into a fresh collection -> continue there
 	PObserve  float64 // the body looks at the collection from a second transaction (dump) at some point
 	PDelAll   float64 // a body step narrows the selection with a filter and deletes all of it (txn.DeleteAll)
+	PDropCol  float64 // a schema step may drop a data column (and later create it again)
 	SortFirst bool    // create the sorted indexes before any data
 	PDelete   float64
 	PInsert   float64
@@ -37,14 +38,15 @@ type SeqProfile struct {
 }
 
 type seqGen struct {
-	p      SeqProfile
-	rnd    *rand.Rand
-	w      *World
-	P, R   *Coll
-	live   []uint32
-	dumpN  int
-	final  bool
-	affine map[string]int // (col,row) -> affine merges since the last put (keeps numbers small)
+	p       SeqProfile
+	rnd     *rand.Rand
+	w       *World
+	P, R    *Coll
+	live    []uint32
+	dumpN   int
+	final   bool
+	affine  map[string]int // (col,row) -> affine merges since the last put (keeps numbers small)
+	dropped []ColDesc      // data columns dropped so far and not created again
 }
 
 func (g *seqGen) value(d ColDesc, k string) any {
@@ -126,6 +128,15 @@ func (g *seqGen) dump() {
 	}
 }
 
+func (g *seqGen) isDropped(name string) bool {
+	for _, d := range g.dropped {
+		if d.Name == name {
+			return true
+		}
+	}
+	return false
+}
+
 func (g *seqGen) pick() (uint32, bool) {
 	if len(g.live) == 0 {
 		return 0, false
@@ -141,10 +152,39 @@ func (g *seqGen) schemaStep() {
 			f(g.R)
 		}
 	}
-	switch g.rnd.Intn(4) {
-	case 0: // late column
+	n := 4
+	if g.p.PDropCol > 0 {
+		n = 5
+	}
+	switch g.rnd.Intn(n) {
+	case 4: // drop a data column (what was computed from it stays, detached); it may come back later, empty
+		if g.rnd.Float64() >= g.p.PDropCol {
+			return
+		}
+		var cand []ColDesc
+		for _, d := range c.Cols {
+			if d.Kind != "key" {
+				cand = append(cand, d)
+			}
+		}
+		if len(cand) < 2 {
+			return
+		}
+		d := cand[g.rnd.Intn(len(cand))]
+		g.dropped = append(g.dropped, d)
+		if g.R != nil { // the replica is brought up to date first: the stream carries no schema changes
+			g.P.ReplayTo(g.R, "r")
+		}
+		both(func(c *Coll) { c.DropColumn(d.Name) })
+	case 0: // late column, or a dropped one again
+		if len(g.dropped) > 0 && g.rnd.Intn(2) == 0 {
+			d := g.dropped[0]
+			g.dropped = g.dropped[1:]
+			both(func(c *Coll) { c.CreateColumn(d) })
+			return
+		}
 		for _, d := range g.p.Late {
-			if _, ok := c.Desc(d.Name); !ok {
+			if _, ok := c.Desc(d.Name); !ok && !g.isDropped(d.Name) {
 				d := d
 				both(func(c *Coll) { c.CreateColumn(d) })
 				return
@@ -266,14 +306,21 @@ func (g *seqGen) snapCycle(n int) {
 	for _, d := range g.P.Cols {
 		S.CreateColumn(d)
 	}
+	has := func(col string) bool { _, ok := g.P.Desc(col); return ok }
 	for _, x := range g.P.Idx {
-		S.CreateIndex(x)
+		if has(x.Col) {
+			S.CreateIndex(x)
+		}
 	}
 	for _, x := range g.P.Sorts {
-		S.CreateSort(x[0], x[1])
+		if has(x[1]) {
+			S.CreateSort(x[0], x[1])
+		}
 	}
 	for _, x := range g.P.Trigs {
-		S.CreateTrigger(x[0], x[1])
+		if has(x[1]) {
+			S.CreateTrigger(x[0], x[1])
+		}
 	}
 	S.Restore("rs", name, -1)
 	g.P.Dump(1)
